@@ -70,13 +70,33 @@ pub fn pool(seed: u64) -> Vec<Call> {
         }
     }
     let mut cells: Vec<u64> = vec![0];
-    for i in 0..60 {
+    for i in 0..240 {
         let class = gen::POINT_CLASSES[i % gen::POINT_CLASSES.len()];
         let (lon, lat) = gen::point(&mut rng, &fr, class);
-        let res = [0, 1, 2, 3, 5, 9, 14, 22, 29][i % 9];
+        let res = [0, 1, 2, 3, 5, 9, 14, 22, 29, 1, 0, 26][(i / gen::POINT_CLASSES.len()) % 12];
         v.push(Call::Lookup { lon, lat, res });
         if let Ok(id) = lookup(lon, lat, res) {
             cells.push(id);
+        }
+    }
+    // vertex clusters: the exact corners of a cell looked up at its own and the neighbouring resolutions, and points a
+    // few centimetres away - the lookups that reach the search's rarely taken branches (probe hits, nearest-cell fallback)
+    for k in 0..24usize {
+        let id = cells[1 + (k * 7) % (cells.len() - 1)];
+        let Some(c) = decode(id) else { continue };
+        if c.res < 2 {
+            continue;
+        }
+        let Ok(ring) = guard(|| a5::cell_to_boundary(id, Some(a5::core::cell::CellToBoundaryOptions { closed_ring: false, segments: Some(1) }))) else { continue };
+        let Ok(ring) = ring else { continue };
+        for (j, p) in ring.iter().enumerate() {
+            for dr in [-1, 0, 1] {
+                let r = (c.res + dr).clamp(2, MAX_RES);
+                v.push(Call::Lookup { lon: p.longitude(), lat: p.latitude(), res: r });
+                if j % 2 == 0 {
+                    v.push(Call::Lookup { lon: p.longitude() + 1e-7, lat: p.latitude(), res: r });
+                }
+            }
         }
     }
     for (i, id) in cells.iter().enumerate().take(40) {
